@@ -18,7 +18,8 @@ import (
 // Alphabet: from A and B (equal sequence counters, equal CP SEIDs) and from the never-associated peer C:
 // Heartbeat; Association with / without Node ID; Establishment: normal with a PDR carrying a UE IP address,
 // with PDRs with and without UE IP, without Node ID, without CP F-SEID, for an unknown node; Modification and
-// Deletion for live, released and never-issued SEIDs.
+// Deletion for live, released and never-issued SEIDs; a Modification for a live session whose Node ID IE does not
+// decode (go-upf does not answer it) and which carries rule IEs.
 
 type c08 struct {
 	*Base
@@ -72,6 +73,10 @@ func (c *c08) Enabled() []seqx.Event {
 	for k := 1; k <= len(c.EstUP); k++ {
 		if c.Holder(k) {
 			ev = append(ev, nm(seqx.Ev("Mod", int64(k)), "Mod(s%d)", k), nm(seqx.Ev("Del", int64(k)), "Del(s%d)", k))
+			if c.R.Live[c.SeidOf(k)] != nil {
+				// a Modification that go-upf does not answer: its Node ID IE does not decode; it also carries rules
+				ev = append(ev, nm(seqx.Ev("ModBadNode", int64(k)), "Mod(s%d, undecodable Node ID + Create FAR 3 + Remove FAR 1)", k))
+			}
 		}
 	}
 	never := int64(len(c.R.IncOf)) + 1
@@ -305,6 +310,28 @@ func (c *c08) Apply(e seqx.Event) seqx.StepResult {
 				j.Fail("fseid-does-not-address-session", "after this establishment a Modification addressed to the UP F-SEID %s (%s) was answered %v, want accepted with that session's CP SEID %#x", c.Label(lup), which, pm, ls.CP)
 			}
 		}
+	case "ModBadNode":
+		seid := c.SeidOf(int(e.A[0]))
+		s := c.R.Live[seid]
+		p := s.Peer
+		seq := c.NextSeq(p)
+		o = c.send(p, smf.ModRawNode(seq, seid, []byte{3, 10, 0, 0, 2}, op('C', 'F', 3), op('R', 'F', 1)))
+		if j.Crashed(c.W, o) {
+			break
+		}
+		m := c.correlate(j, "ModBadNode", o, p, seq, smf.MModRsp)
+		switch {
+		case m == nil:
+			j.Tag("request-not-answered")
+			c.noTrace(j, "Mod(undecodable Node ID)", s0, o)
+		case m.Cause() != smf.CauseAccepted:
+			j.Tag("request-rejected")
+			c.noTrace(j, "Mod(undecodable Node ID)", s0, o)
+		default:
+			if m.SEID != s.CP {
+				j.Fail("session-response-seid:ModBadNode", "%s accepted with header SEID %#x, want the peer's SEID %#x", e, m.SEID, s.CP)
+			}
+		}
 	case "Mod", "Del", "ModRaw", "DelRaw":
 		seid := uint64(e.A[0])
 		if e.Op == "Mod" || e.Op == "Del" {
@@ -351,7 +378,7 @@ func (c *c08) Apply(e seqx.Event) seqx.StepResult {
 			c.noTrace(j, what+"(non-existent)", s0, o)
 		}
 	}
-	if len(j.Viols) == 0 && len(e.A) > 0 && e.Op != "Mod" && e.Op != "Del" && e.Op != "ModRaw" && e.Op != "DelRaw" {
+	if len(j.Viols) == 0 && len(e.A) > 0 && e.Op != "Mod" && e.Op != "Del" && e.Op != "ModRaw" && e.Op != "DelRaw" && e.Op != "ModBadNode" {
 		c.resendOthers(j, int(e.A[0]))
 	} else if len(j.Viols) == 0 {
 		c.resendOthers(j, -1) // session-addressed events: the acting peer is the session's; every peer's last request is re-sent
